@@ -57,7 +57,7 @@ type fsFacts struct {
 	fns       []*ssa.Function
 	inPkg     map[*ssa.Function]bool
 	keyToPath map[*ssa.Function]bool // (kept for compatibility; destinations are recognised through destSlots)
-	destSlots map[*ssa.Alloc]bool     // local slices that hold [basepath, shards of escapingFunc(key)...]
+	destSlots map[*ssa.Alloc]bool    // local slices that hold [basepath, shards of escapingFunc(key)...]
 	memo      map[ssa.Value]pathClass
 	busy      map[ssa.Value]bool
 	staging   string // constant value of the staging directory name
